@@ -41,7 +41,10 @@ def gen_program(rng, idx):
 
     phases = ref.phases_for("8")  # also generate phases invalid for old EAPIs
     neclass = rng.choice([0, 1, 1, 2, 3, 4])
-    names = ["c%d_e%d" % (idx, i) for i in range(neclass)]
+    # names that are prefixes of one another (vcs / vcs-utils, git / git-r3 style) and ordinary ones
+    suffixes = ["", "-r1", "x", "-r12"] if rng.random() < 0.5 else ["0", "1", "2", "3"]
+    rng.shuffle(suffixes)
+    names = ["c%d_e%s" % (idx, suffixes[i]) for i in range(neclass)]
     eclasses = {}
 
     def body(is_eclass, me_index):
